@@ -593,14 +593,16 @@ package types
 // ---- C01: what a decision rests on ----
 // The commit a node stores as its justification is built from ONE vote set (one height, one round): it names that set's
 // two-thirds block id, has one entry per validator, and an entry counts for the block only if that validator's
-// precommit in this set is for exactly that block id.
+// precommit in this set is for exactly that block id - and every such precommit does count.
 //@ func VoteSet.MakeCommit
 //@   assigns elems(CommitSig)
 //@   ensures id: result != nil && voteSet.maj23 != nil && result.BlockID.Hash == voteSet.maj23.Hash && result.BlockID.PartSetHeader.Total == voteSet.maj23.PartSetHeader.Total && result.BlockID.PartSetHeader.Hash == voteSet.maj23.PartSetHeader.Hash
 //@   ensures round: result.Height == voteSet.height && result.Round == voteSet.round && voteSet.signedMsgType == 2
 //@   ensures sigs: len(result.Signatures) == len(voteSet.votes) && forall(i, 0, len(voteSet.votes), result.Signatures[i].BlockIDFlag == 2 ==> (voteSet.votes[i] != nil && voteSet.votes[i].BlockID.Hash == voteSet.maj23.Hash && voteSet.votes[i].BlockID.PartSetHeader.Total == voteSet.maj23.PartSetHeader.Total && voteSet.votes[i].BlockID.PartSetHeader.Hash == voteSet.maj23.PartSetHeader.Hash && result.Signatures[i].Signature == voteSet.votes[i].Signature && result.Signatures[i].ValidatorAddress == voteSet.votes[i].ValidatorAddress))
+//@   ensures keeps: forall(i, 0, len(voteSet.votes), (voteSet.votes[i] != nil && len(voteSet.votes[i].BlockID.Hash) == 32 && voteSet.votes[i].BlockID.PartSetHeader.Total > 0 && len(voteSet.votes[i].BlockID.PartSetHeader.Hash) == 32 && voteSet.votes[i].BlockID.Hash == voteSet.maj23.Hash && voteSet.votes[i].BlockID.PartSetHeader.Total == voteSet.maj23.PartSetHeader.Total && voteSet.votes[i].BlockID.PartSetHeader.Hash == voteSet.maj23.PartSetHeader.Hash) ==> result.Signatures[i].BlockIDFlag == 2)
 //@   grants from: madeFrom(result, voteSet)
 //@   loop 1 invariant idx: 0 <= rangeindex + 1 && rangeindex + 1 <= len(voteSet.votes) && len(commitSigs) == len(voteSet.votes) && fresh(commitSigs)
+//@   loop 1 invariant kept: forall(i, 0, rangeindex + 1, (voteSet.votes[i] != nil && len(voteSet.votes[i].BlockID.Hash) == 32 && voteSet.votes[i].BlockID.PartSetHeader.Total > 0 && len(voteSet.votes[i].BlockID.PartSetHeader.Hash) == 32 && voteSet.votes[i].BlockID.Hash == voteSet.maj23.Hash && voteSet.votes[i].BlockID.PartSetHeader.Total == voteSet.maj23.PartSetHeader.Total && voteSet.votes[i].BlockID.PartSetHeader.Hash == voteSet.maj23.PartSetHeader.Hash) ==> commitSigs[i].BlockIDFlag == 2)
 //@   loop 1 invariant done: forall(i, 0, rangeindex + 1, commitSigs[i].BlockIDFlag == 2 ==> (voteSet.votes[i] != nil && voteSet.votes[i].BlockID.Hash == voteSet.maj23.Hash && voteSet.votes[i].BlockID.PartSetHeader.Total == voteSet.maj23.PartSetHeader.Total && voteSet.votes[i].BlockID.PartSetHeader.Hash == voteSet.maj23.PartSetHeader.Hash && commitSigs[i].Signature == voteSet.votes[i].Signature && commitSigs[i].ValidatorAddress == voteSet.votes[i].ValidatorAddress))
 //@ spec func madeFrom(c *Commit, vs *VoteSet) bool
 
